@@ -775,9 +775,11 @@ mod verif_c05_store {
     use crate::{config::Action, time::{Timer, TimedOverhead, TscTimestamp}, util::thread::ThreadPool};
     use std::num::{NonZeroU64, NonZeroUsize};
     fn zeroed_random_state() -> std::hash::RandomState { unsafe { std::mem::zeroed() } }
-    fn raw(start: u64, end: u64, alloc_bytes: usize) -> RawSample {
+    fn raw(start: u64, end: u64, alloc_bytes: usize) -> RawSample { raw2(start, end, alloc_bytes, 0) }
+    fn raw2(start: u64, end: u64, alloc_bytes: usize, dealloc_bytes: usize) -> RawSample {
         let mut info = ThreadAllocInfo::new();
         if alloc_bytes > 0 { info.tally_alloc(alloc_bytes); }
+        if dealloc_bytes > 0 { info.tally_dealloc(dealloc_bytes); }
         RawSample {
             start: Timestamp::Tsc(TscTimestamp { value: start }), end: Timestamp::Tsc(TscTimestamp { value: end }),
             timer: Timer::Tsc { frequency: NonZeroU64::new(1_000_000_000_000).unwrap() },
@@ -794,12 +796,14 @@ mod verif_c05_store {
         let o = BenchOptions::default();
         let mut cx = BenchContext::new(&sh, &o, NonZeroUsize::new(2).unwrap());
         cx.samples.sample_size = 1;
-        let quiet: usize = kani::any(); kani::assume(quiet < 5);         // which sample (if any) made no allocation
-        let bytes = |k: usize| if k == quiet { 0 } else { 100 + k };
+        let quiet: usize = kani::any(); kani::assume(quiet < 5);         // which sample (if any) made no allocator call at all
+        let freeing: usize = kani::any(); kani::assume(freeing < 5 && freeing != quiet);   // which sample (if any) only gave memory back
+        let bytes = |k: usize| if k == quiet || k == freeing { 0 } else { 100 + k };
+        let freed = |k: usize| if k == freeing { 50 + k } else { 0 };
         let prec = FineDuration { picos: 1 };
-        let r1 = [raw(0, 10, bytes(0)), raw(0, 20, bytes(1))];
+        let r1 = [raw2(0, 10, bytes(0), freed(0)), raw2(0, 20, bytes(1), freed(1))];
         let rem = cx.verif_store_round(&r1, 1, prec, &TimedOverhead::ZERO, Some(10));
-        let r2 = [raw(30, 60, bytes(2)), raw(30, 70, bytes(3))];
+        let r2 = [raw2(30, 60, bytes(2), freed(2)), raw2(30, 70, bytes(3), freed(3))];
         let rem = cx.verif_store_round(&r2, 1, prec, &TimedOverhead::ZERO, rem);
         assert!(cx.samples.time_samples.len() == 4, "[C05] one timing per sample");
         assert!(rem == Some(6), "[C03] the remaining-sample counter goes down by one per recorded sample");
@@ -808,13 +812,16 @@ mod verif_c05_store {
         while k < 4 {
             assert!(cx.samples.time_samples[k].duration.picos == want_time[k], "[C05] timings are stored in sample order");
             match cx.samples.alloc_info_by_sample.get(&(k as u32)) {
+                Some(info) if k == freeing => assert!(info.tallies.get(AllocOp::Dealloc).size == (50 + k) as crate::alloc::ThreadAllocCount && info.tallies.get(AllocOp::Dealloc).count == 1
+                                      && info.tallies.get(AllocOp::Alloc).count == 0,
+                                      "[C05] a sample that only deallocated has its figures stored under the index of its own timing"),
                 Some(info) => assert!(k != quiet && info.tallies.get(AllocOp::Alloc).size == (100 + k) as crate::alloc::ThreadAllocCount && info.tallies.get(AllocOp::Alloc).count == 1,
                                       "[C05] a sample's allocation figures are stored under the index of its own timing"),
                 None => assert!(k == quiet, "[C05] every sample that allocated has its allocation figures stored under its own index"),
             }
             k += 1;
         }
-        kani::cover!(quiet == 4); kani::cover!(quiet == 1);
+        kani::cover!(quiet == 4); kani::cover!(quiet == 1); kani::cover!(freeing == 2 && quiet == 4); kani::cover!(freeing == 4 && quiet == 0);
     }
 }
 """
@@ -845,7 +852,7 @@ def build(S: Sources, tier="quick") -> Unit:
     vfiles = vfiles + guarded(lambda: [f for f in L.loop_files(S, "c05", L.TAGS["C05"], False, errs) if f.name in ("c05_loop", "c05_canary_final_bench")], errs, [])
     shim = guarded(lambda: store_shim(S), errs, None)
     if shim is not None:
-        hs.append(KaniHarness("verif_c05_store::samples_stored_under_their_own_index", "bounded", bound="two rounds of two threads; at most one sample without allocations",
+        hs.append(KaniHarness("verif_c05_store::samples_stored_under_their_own_index", "bounded", bound="two rounds of two threads; at most one sample without allocator calls and at most one that only deallocates",
                               covers="bench_loop_threaded: storing a round's samples (region run through a shim method holding its text)"))
     spec = KaniSpec(injections={UTIL: KANI_UTIL, FD: KANI_FD, BENCH: KANI_BENCH + (shim + KANI_STORE if shim is not None else ""), SAMPLE: KANI_MAP}, harnesses=hs, patches=[MAP_PATCH], timeout_s=3600,
                       stubs_note=["std::hash::RandomState::new -> all-zero keys (the thread pool's HashMap seeding needs the getrandom FFI)",
